@@ -460,8 +460,38 @@ func TestC16(t *testing.T) {
 			a.ExtraImports, b.ExtraImports = false, true
 			a.OnlyModels, b.OnlyModels = false, false
 		}
-		ca := caseOf(a, []string{f.RelPath}, f)
-		cb := caseOf(b, []string{f.RelPath}, f)
+		files := []*model.File{f}
+		if (rel == "struct-name-from-title" || rel == "schema-root-type") && f.Root.Kind == model.KObject && rapid.Bool().Draw(rt, "nillablecycle") {
+			// a reference cycle through a nillable named type (a map or an array definition) that an
+			// optional property of a struct definition points back to; the root reaches the nillable
+			// member first. How the root type is NAMED must not decide which member gets the pointer.
+			structName := rapid.SampledFrom([]string{"zcentry", "zczentry"}).Draw(rt, "cyclestructname") // sorts before / after the map
+			entry := &model.Node{Kind: model.KObject, Props: []model.Prop{{Name: "label", Node: &model.Node{Kind: model.KString}}}}
+			var index *model.Node
+			if rapid.Bool().Draw(rt, "cyclemap") {
+				index = &model.Node{Kind: model.KObject, Additional: &model.Additional{Schema: &model.Node{Kind: model.KRef, Ref: "#/$defs/" + structName, Target: entry}}}
+			} else {
+				index = &model.Node{Kind: model.KArray, Items: &model.Node{Kind: model.KRef, Ref: "#/$defs/" + structName, Target: entry}}
+			}
+			entry.Props = append(entry.Props, model.Prop{Name: "children", Node: &model.Node{Kind: model.KRef, Ref: "#/$defs/zcsection_index", Target: index}})
+			f.Defs = append(f.Defs, model.Def{Name: structName, Node: entry}, model.Def{Name: "zcsection_index", Node: index})
+			f.Root.Props = append(f.Root.Props, model.Prop{Name: "zcsections", Node: &model.Node{Kind: model.KRef, Ref: "#/$defs/zcsection_index", Target: index}})
+			c.Count("shape.cycle_through_nillable_definition")
+		}
+		if rel == "schema-root-type" && f.Root.Kind == model.KObject && rapid.IntRange(0, 3).Draw(rt, "foreignroot") == 0 {
+			// the renamed root belongs to a schema whose types live in another package that this run
+			// does not write (package mapping without output): only the qualified name changes
+			cust := &model.File{RelPath: "customer.json", ID: "https://example.com/customer", Root: &model.Node{Kind: model.KObject,
+				Props: []model.Prop{{Name: "name", Node: &model.Node{Kind: model.KString}}}, Required: []string{"name"}}}
+			f.Root.Props = append(f.Root.Props, model.Prop{Name: "zcustomer", Node: &model.Node{Kind: model.KRef, Ref: "customer.json", Target: cust.Root}})
+			files = append(files, cust)
+			a.Mappings = []gen.Mapping{{ID: cust.ID, Package: "example.com/gen/customer"}}
+			b.Mappings = []gen.Mapping{{ID: cust.ID, Package: "example.com/gen/customer", RootType: "Client"}}
+			f.Root.NoType = false
+			c.Count("shape.root_type_of_foreign_package_schema")
+		}
+		ca := caseOf(a, []string{f.RelPath}, files...)
+		cb := caseOf(b, []string{f.RelPath}, files...)
 		iter++
 		useCLI := iter%cliEvery == 0
 		failed, msg, err := evalC16(rel, ca, cb, useCLI)
